@@ -75,16 +75,23 @@ func genC43Holds(r *Rand) string {
 // validation enabled, Results() not read: the results channel fills, the apply goroutine
 // blocks forwarding, validated blocks wait in validatedChan while WaitForDrain polls
 func genC43ResultsUnread(r *Rand) string {
-	dw := Pick(r, 1, 2, 4)
-	vw := Pick(r, 1, 2, 4)
+	// one worker per stage keeps the blocks in order, so that they really queue up in
+	// validatedChan (with more workers the reorder buffer may swallow them in one batch)
+	dw := Pick(r, 1, 1, 1, 2)
+	vw := Pick(r, 1, 1, 1, 4)
 	buf := Pick(r, 1, 1, 2, 3)
 	var sb strings.Builder
 	fmt.Fprintf(&sb, "pipe dw=%d vw=%d buf=%d | rpause", dw, vw, buf)
-	nb := buf + 2 + r.Intn(buf+1)
+	// buf results fit in the channel, one more blocks the apply goroutine, up to buf more
+	// wait in validatedChan (sometimes one beyond: it stays in a validate worker)
+	nb := buf + 1 + 1 + r.Intn(buf)
+	if r.Chance(1, 4) {
+		nb++
+	}
 	for b := 0; b < nb; b++ {
 		fmt.Fprintf(&sb, " s:g:0:0:0:0:-")
 	}
-	sb.WriteString(" drain:2 pc")
+	sb.WriteString(" settle pc drain:2 pc")
 	return sb.String()
 }
 
